@@ -123,16 +123,6 @@ Spec_CeilFloor(ctx, x, ceil) ==
        IF ctx.p = 0 \/ NumDigits(r.c) > ctx.p \/ NumDigits(r.c) - 1 > ctx.emax THEN Skip
        ELSE FinOut(x.n, r.c, 0, 0)
 
-\* sign of the exact difference x - y for non-NaN x, y (zeros of either sign are equal)
-CmpSpec(x, y) ==
-  LET sx == IF ZeroD(x) THEN 0 ELSE IF x.n THEN -1 ELSE 1
-      sy == IF ZeroD(y) THEN 0 ELSE IF y.n THEN -1 ELSE 1
-  IN IF sx # sy THEN (IF sx < sy THEN -1 ELSE 1)
-     ELSE IF sx = 0 THEN 0
-     ELSE IF IsInf(x) /\ IsInf(y) THEN 0
-     ELSE IF IsInf(x) THEN sx
-     ELSE IF IsInf(y) THEN -sx
-     ELSE sx * CmpMag(x.c, x.e, y.c, y.e)
 Spec_Cmp(ctx, x, y) ==
   LET v == CmpSpec(x, y) IN FinOut(v < 0, IF v = 0 THEN <<>> ELSE One, 0, 0)
 
